@@ -1,7 +1,7 @@
 """Bounded stand-in B1 (NOT a proof): the string parser of TopicFilter (`TryFrom<ByteString>` / `FromStr`, src/topic.rs) uses
 `str::split`, iterator adaptors and `collect::<Result<..>>`, which the deductive verifier cannot read.  On every run src/topic.rs
 is copied verbatim behind a 30-line stand-in for the two ntex_bytes types it uses, compiled with rustc alone (no dependency) and
-run over EVERY string up to MAX_LEN over the alphabet {a, $, /, +, #}: the parser must accept exactly what the byte validator
+run over EVERY string up to MAX_LEN over the alphabet {a, $, /, +, #, é}: the parser must accept exactly what the byte validator
 `is_valid` accepts (that function is proved equal to MQTT section 4.7.1 in U6), produce the level kinds section 4.7 defines and
 print back the input.  What the copy drops: the `#[cfg(test)]` module, the serde derives, `use ntex_bytes` -> `use crate::ntex_bytes`.
 """
@@ -16,7 +16,7 @@ import subprocess
 
 HERE = os.path.dirname(os.path.abspath(__file__))
 ROOT = os.path.dirname(HERE)
-MAX_LEN = 9
+MAX_LEN = 8
 PROPS = ['C18']
 
 
@@ -94,7 +94,7 @@ def _package(res, dropped):
     return {
         'check': {'id': 'B1/topic_filter_parser_agrees_with_the_section_4_7_validator_and_level_kinds/bounded', 'props': PROPS, 'status': status,
                   'fn': 'TryFrom<ByteString> for TopicFilter / FromStr', 'file': 'src/topic.rs', 'repo': 'src/topic.rs',
-                  'bound': 'every string of length 0..=%d over the alphabet {a, $, /, +, #}' % MAX_LEN,
+                  'bound': 'every string of length 0..=%d over the alphabet {a, $, /, +, #, é}' % MAX_LEN,
                   'cases': cases, 'accepted': accepted, 'witness': witness,
                   'output': (res.get('build_out', '') if status == 'BUILD-FAILED' else out)[-1500:]},
         'cmd': 'rustc --edition 2024 -O <stand-in for ntex_bytes + src/topic.rs verbatim + bounded/b1_harness.rs>; ./b1 %d (%.1fs%s)' % (
